@@ -16,7 +16,7 @@ import z3
 
 from .values import *  # noqa: F401,F403
 from .values import SV, VInt, VFloat, VStr, VBytes, VNone, NONE, VNative, NOTIMPL, VList, VTuple, VDict, VSet, \
-    VObj, VFunc, VModel, VBound, VSuper, VIter, VOpaque, VSymIter, VSymList, VTok, FP, RNE, BYTES, is_concrete
+    VObj, VFunc, VModel, VBound, VSuper, VIter, VOpaque, VSymIter, VSymList, VTok, VZSeq, VZSet, FP, RNE, BYTES, is_concrete
 from .source import Sources
 
 
@@ -327,6 +327,7 @@ class Run:
         self.depth = 0
         self.trace = []
         self.asserts = []     # in-path proof obligations: (pc snapshot, formula, label)
+        self.global_overlay = {}   # (id(module dict), name) -> SV : writes to module globals stay inside the path
 
     def check(self, formula, label):
         """Record an obligation that must hold at this program point (loop/fold invariants)."""
@@ -421,6 +422,10 @@ class Run:
             return z3.Length(v.t) > 0
         if isinstance(v, (VList, VTuple, VSet)):
             return len(v.items) > 0
+        if isinstance(v, VZSet):
+            return self.truth(self.engine.models._set_bool(self, v))
+        if isinstance(v, VZSeq):
+            return z3.Length(v.t) > 0
         if isinstance(v, VDict):
             return len(v.pairs) > 0
         if isinstance(v, VNative):
@@ -981,9 +986,10 @@ class Run:
     # ------------------------------------------------------------ assignment
     def assign(self, t, v, env):
         if isinstance(t, ast.Name):
-            if t.id in env.globals_decl:
-                self.ghost.setdefault("writes", []).append(("global", t.id))
-                raise Unsupported(f"write to module global {t.id}")
+            if self._declared_global(env, t.id):
+                self.ghost.setdefault("writes", []).append(("global", t.id, v))
+                self.global_overlay[(id(env.globals), t.id)] = v
+                return
             if t.id in env.nonlocal_decl:
                 e = env.parent
                 while e is not None:
@@ -1021,6 +1027,16 @@ class Run:
         else:
             raise Unsupported(f"assignment target {type(t).__name__}")
 
+    def _declared_global(self, env, name):
+        x = env
+        while x is not None:
+            if name in x.globals_decl:
+                return True
+            if x.parent is None or x.parent.func is not x.func:
+                break
+            x = x.parent
+        return False
+
     # ------------------------------------------------------------ expressions
     def eval(self, e, env):
         m = getattr(self, "e_" + type(e).__name__, None)
@@ -1041,6 +1057,8 @@ class Run:
                 return x.vars[name]
             x = x.parent
         g = env.globals
+        if g is not None and (id(g), name) in self.global_overlay:
+            return self.global_overlay[(id(g), name)]
         if g is not None and name in g:
             return lift(g[name])
         if hasattr(builtins, name):
@@ -1266,6 +1284,13 @@ class Run:
     def e_Call(self, e, env):
         if isinstance(e.func, ast.Name) and e.func.id == "super" and not e.args and not e.keywords:
             return self.zero_arg_super(env)
+        if isinstance(e.func, ast.Name) and e.func.id == "super" and len(e.args) == 2 and not e.keywords:
+            k = self.eval(e.args[0], env)
+            o = self.eval(e.args[1], env)
+            if isinstance(k, VNative) and isinstance(k.obj, type):
+                if isinstance(o, VNative) and isinstance(o.obj, type):
+                    return VSuper(k.obj, None, o.obj)
+                return VSuper(k.obj, o, cls_of(o))
         if isinstance(e.func, ast.Name) and e.func.id == "cast" and len(e.args) == 2:
             f = self.lookup("cast", env)
             import typing
@@ -1468,6 +1493,14 @@ class Run:
                     raise Unsupported("key comparison raises")
             except NotConcrete:
                 pass
+        if type(a) is type(b) and isinstance(a, (VInt, VStr)) and (a.cls is b.cls or
+                                                                    (issubclass(a.cls, (int, str)) and issubclass(b.cls, (int, str)))):
+            if isinstance(a, VInt) != isinstance(b, VInt):
+                return False
+            # hash/eq consistency of builtin payloads: equal keys iff equal payloads (bool/int share a hash domain)
+            return self.branch(a.t == b.t)
+        if isinstance(a, (VInt, VStr, VNone)) and isinstance(b, (VInt, VStr, VNone)) and type(a) is not type(b):
+            return False
         raise Unsupported("symbolic dict key")
 
     def dict_lookup(self, d, k):
